@@ -616,7 +616,7 @@ Definition ex0_ins : list b0_in := [bmk_b0in 0%N 100 (ex_b 5) (ex_b 7) 0%N 0 0].
 Definition ex0_outs : list b0_out := [bmk_b0out 0%N 30 false; bmk_b0out 0%N 60 false; bmk_b0out 0%N 10 true].
 Definition ex0_rng : list bytes := map ex_b [21; 22; 23; 24; 25; 26; 27; 28].
 Definition b0_run_balanced ins outs sel :=
-  match b0_blind ins outs sel false true ex0_rng with
+  match b0_blind ins outs sel false true true ex0_rng with
   | BOk r => Some (b0_balanced ins outs r) | BErr => None | BPanic => Some false end.
 
 (* both spendable outputs blinded (indexes 0,1) *)
@@ -833,8 +833,8 @@ Definition has_script (outs : list b0_out) (i : N) : bool :=
 
 (* Blinder.Blind, any selection (contiguous or not, in any order): when it succeeds, output j carries
    commitments and proofs iff j was selected (and has a script: an empty-script output is never blinded) *)
-Theorem v0_blinded_exactly_requested ins outs sel keys sok rng r j :
-  b0_blind ins outs sel keys sok rng = BOk r -> (j < length outs)%nat ->
+Theorem v0_blinded_exactly_requested ins outs sel keys tokkey sok rng r j :
+  b0_blind ins outs sel keys tokkey sok rng = BOk r -> (j < length outs)%nat ->
   marked_at (br0_outs r) j = existsb (fun i => has_script outs i && (N.to_nat i =? j)%nat) sel.
 Proof.
   unfold b0_blind. destruct (b0_pseudo keys 0%N ins rng) as [[pseudo r1]|]; [|discriminate].
@@ -845,6 +845,7 @@ Proof.
   destruct (b0_draws _ r3) as [[seeds r4]|]; [|discriminate].
   destruct (negb sok); [discriminate|].
   destruct (b0_writeback _ _ _) as [w| |] eqn:Hw; try discriminate.
+  destruct (keys && negb tokkey && _); [discriminate|].
   intros [= <-] Hj. cbn [br0_outs].
   destruct (v0_writeback_marks _ _ _ _ j Hw) as [_ Hm]; [rewrite map_length; exact Hj|].
   rewrite Hm, marked_start. cbn [orb]. unfold sel_at. rewrite existsb_filter, existsb_sort. reflexivity.
